@@ -182,7 +182,8 @@ func (z *Decimal) Add(x, y *Decimal) *Decimal {
 		// ±0 + ±0
 		z.acc = Exact
 		z.form = zero
-		z.neg = x.neg && y.neg // -0 + -0 == -0
+		// -0 + -0 == -0; an exact zero sum of opposite signs is -0 only under ToNegativeInf
+		z.neg = x.neg && y.neg || x.neg != y.neg && z.mode == ToNegativeInf
 		return z
 	}
 
@@ -1377,7 +1378,8 @@ func (z *Decimal) Sub(x, y *Decimal) *Decimal {
 		// ±0 - ±0
 		z.acc = Exact
 		z.form = zero
-		z.neg = x.neg && !y.neg // -0 - +0 == -0
+		// -0 - +0 == -0; an exact zero difference of like signs is -0 only under ToNegativeInf
+		z.neg = x.neg && !y.neg || x.neg == y.neg && z.mode == ToNegativeInf
 		return z
 	}
 
